@@ -35,7 +35,7 @@ def bad_line(rng, dl, cm, prev_entry):
     return kind, ind + k + grammar.blanks(rng, 1, 2) + first + rest
 
 def gen(rng, tier):
-    n = 900 if tier == "quick" else 30000
+    n = 1800 if tier == "quick" else 30000
     asts = []
     for _ in range(n):
         dl = rng.choice(grammar.DELIMS); cm = rng.choice(grammar.COMMENTS)
